@@ -7,8 +7,8 @@
    [read_row fixed es row] the trace read path (OutputQuery) on a stored row.
    Accepted spans have 16-byte trace ids and 8-byte span ids (onSpan rejects every other width): part of [row_of]. *)
 From Coq Require Import List ZArith NArith Bool String Permutation.
-From Qryn Require Import model.Spans model.SpansChunk model.SpansWire model.SpansStore proofs.SpansProofs proofs.SpansChunkProofs proofs.SpansTimeProofs
-  proofs.SpansWireProofs proofs.SpansStoreProofs.
+From Qryn Require Import model.Spans model.SpansChunk model.SpansWire model.SpansStore model.SpansJson proofs.SpansProofs proofs.SpansChunkProofs
+  proofs.SpansTimeProofs proofs.SpansWireProofs proofs.SpansStoreProofs proofs.SpansJsonProofs proofs.SpansNumProofs.
 Import ListNotations.
 Open Scope Z_scope.
 
@@ -173,3 +173,74 @@ Theorem read_back_bytes : forall inp rows ps,
   Forall2 (fun p sr => reads_back p (read_row_wire fixed (in_elems inp) (fst sr) (payload_bytes (t_payload (fst sr))))) ps rows.
 Proof. exact read_back_wire_l. Qed.
 Print Assumptions read_back_bytes.
+
+(* The wire domain follows from the PUSHED request: when every pushed OTLP span and every resource attribute lies in the round-trip
+   domain (input_wire_ok: times uint64, kind a non-negative int32, integers int64, doubles multiples of 1/8 below 2^53, no missing
+   value directly inside a list), so does every payload span the parser builds (the appended resource attributes and the
+   synthesised service names included). *)
+Theorem wire_domain_of_input : forall inp rows,
+  decode fixed inp = Some rows -> input_wire_ok inp = true -> wire_domain rows.
+Proof. exact wire_domain_of_input_l. Qed.
+Print Assumptions wire_domain_of_input.
+
+(* read_back_bytes with its domain stated on the pushed request instead of on the rows *)
+Theorem read_back_bytes_of_input : forall inp rows ps,
+  decode fixed inp = Some rows -> pushed_of inp = Some ps -> in_range inp -> input_wire_ok inp = true ->
+  Forall2 (fun p sr => reads_back p (read_row_wire fixed (in_elems inp) (fst sr) (payload_bytes (t_payload (fst sr))))) ps rows.
+Proof. exact read_back_bytes_of_input_l. Qed.
+Print Assumptions read_back_bytes_of_input.
+
+(* ---- the Zipkin payload as a JSON token stream (model/SpansJson.v).  [toks_of t] = the tokens of a JSON value t (strings with their
+   escapes decoded, numbers as their lexical text); [parse] = the read side's parser (the whole text must be one value). *)
+Theorem token_parse_inverts : forall t, parse (toks_of t) = Some t.
+Proof. exact parse_toks_of. Qed.
+Print Assumptions token_parse_inverts.
+
+(* decodeSpan as the streaming walk over tokens (one token at a time: member names, repeated members, values skipped by jx Skip,
+   numbers handed to strconv.ParseInt as their raw text, endpoints, tags) computes, on the tokens of any element whose numbers are
+   JSON numbers, exactly what the tree-level decoder of Spans.v computes on the value they denote -- in both framings, for the
+   repaired and the legacy behaviours alike. *)
+Theorem token_walk_refines : forall q tl nd ts, forallb jt_ok ts = true ->
+  zt_decode q tl nd (map toks_of ts) = zipkin_decode q nd (map abs ts).
+Proof. exact zt_decode_refines. Qed.
+Print Assumptions token_walk_refines.
+
+(* read_back for Zipkin with the stored payload a token stream: the rows come from the walk over the request's tokens, the payload
+   of each row is its span's own tokens, and parsing them (fastjson) and reading the fields returns the pushed span (ids, parent,
+   name, start, end, the pushed tags followed only by endpoint / service.name attributes). *)
+Theorem read_back_tokens : forall nd ts rows ps,
+  forallb jt_ok ts = true ->
+  zt_decode fixed false nd (map toks_of ts) = Some rows ->
+  pushed_of (zin nd (map toks_of ts)) = Some ps ->
+  Forall2 (fun p sr => reads_back p (read_row_tok fixed (map toks_of ts) (fst sr))) ps rows.
+Proof. exact read_back_tokens_l. Qed.
+Print Assumptions read_back_tokens.
+
+(* ... and the rows are one per pushed span with its tag rows *)
+Theorem rows_of_tokens : forall nd ts rows ps,
+  forallb jt_ok ts = true ->
+  zt_decode fixed false nd (map toks_of ts) = Some rows ->
+  pushed_of (zin nd (map toks_of ts)) = Some ps ->
+  Forall2 row_of ps (map fst rows) /\ Forall2 tags_of ps (map snd rows).
+Proof. exact rows_of_tokens_l. Qed.
+Print Assumptions rows_of_tokens.
+
+(* An NDJSON line holding anything after the span object is refused (since the repair; before it the whole line was stored as the
+   payload and the read path returned no span for it: legacy_nd_tail_unreadable in the proofs file). *)
+Theorem trailing_text_is_refused : forall q st t extra, jt_ok t = true -> extra <> [] ->
+  zt_span q false st (toks_of t ++ extra) = None.
+Proof. exact trailing_text_refused. Qed.
+Print Assumptions trailing_text_is_refused.
+
+(* Zipkin annotations read back as events: time = 1000 x the annotation's microseconds, name = its value, in order (an annotation
+   denotes an event when its timestamp is an integer literal 0 < us with us * 1000 below 2^64 and its value a string). *)
+Theorem zipkin_events_read_back : forall fs l evs,
+  jt_get "annotations" fs = Some (TA l) -> Forall2 anno_denotes l evs ->
+  read_events (TO fs) = map (fun e => (fst e * 1000, snd e)) evs.
+Proof. exact zipkin_events_read_back_l. Qed.
+Print Assumptions zipkin_events_read_back.
+
+(* strconv.ParseInt after %d: the decimal text of z parses back to z exactly when z lies in int64, and is refused outside *)
+Theorem parse_print_int64 : forall z, parse_int64 (print_Z z) = if in_int64 z then Some z else None.
+Proof. exact parse_print_int64_l. Qed.
+Print Assumptions parse_print_int64.
